@@ -334,7 +334,7 @@ def lincomb_cases(rng, tier, S):
                 S.put('lin', dtype, lincomb_case(rng, dtype, shape, lay, alias, a, b,
                                                  'unused' if (base != 'int' and rng.random() < 0.4 and dtype not in EXOTIC) else None))
         # C. shape sweep
-        for shape in small + med:
+        for shape in ([(3,), (3, 4), (100,), (1000,)] if (quick and dtype.startswith('>')) else small + med):
             for alias in ALIAS:
                 for a, b in rng.sample(pairs, (2 if main else 1) if quick else 6):
                     run(shape, alias, a, b)
